@@ -20,7 +20,8 @@ RULE = ("case = composable triple a, b, c (0-5 boxes each, width 0-4, empty "
         "domains, scalars, daggered boxes) in one of cat, monoidal, rigid, "
         "tensor, circuit, zx, biclosed, cartesian; all slice points 0<=i<=j<=len "
         "plus negative/None bounds; sums of 0-3 terms.  Non-trivial = a, b, c "
-        "have >= 3 boxes in total; distinct by repr of the triple.")
+        "have >= 3 boxes in total; distinct by repr of the triple."
+        "  Also: WordKit (grammar words), negative indices and reversed partial slices (diagrams and bare boxes), empty sums returned by operations fed back in, += histories.")
 SIZES = {"quick": (16, 200), "thorough": (16, 4000)}
 TIMEOUT = {"quick": 600, "thorough": 5400}
 COVER = {
